@@ -428,7 +428,7 @@ hs_na = Literal('NA').setParseAction( \
 # literal: we cannot support implicit NULLs as they are ambiguous.
 hs_list = GenerateMatch( \
     lambda ver: Group(Or([ \
-        Suppress(Regex(r'[ *]')), \
+        Suppress(Regex(r'\[ *\]')), \
         And([ \
             Suppress(Regex(r'\[ *')), \
             Optional(DelimitedList( \
@@ -468,7 +468,7 @@ hs_tag = GenerateMatch(
 
 hs_tags = GenerateMatch(
     lambda ver: ZeroOrMore(Or([hs_tag[ver], \
-                               Suppress(Regex(r'[ *]'))])) \
+                               Suppress(Regex(r' +'))])) \
         .setName('tags'))
 
 
@@ -503,7 +503,7 @@ def to_dict(tokenlist):
 
 hs_dict = GenerateMatch(
     lambda ver: Or([
-        Suppress(Regex(r'[ *]')),
+        Suppress(Regex(r'{ *}')),
         And([
             Suppress(Regex(r'{ *')),
             hs_tags[ver],
